@@ -19,6 +19,9 @@
 -/
 import Mathlib.Analysis.SpecialFunctions.Trigonometric.Inverse
 import Mathlib.Analysis.SpecialFunctions.Complex.Arg
+import Mathlib.Analysis.SpecialFunctions.Trigonometric.Arctan
+import Mathlib.Analysis.SpecialFunctions.Trigonometric.Deriv
+import Mathlib.Analysis.Calculus.Deriv.MeanValue
 import Mathlib.Tactic.Ring
 import Mathlib.Tactic.Linarith
 import Mathlib.Tactic.FieldSimp
@@ -122,6 +125,127 @@ example : gcDist realTrig 0 0 90 0 = Real.pi / 2 := by
   simp only [gcDist, lawcos, realTrig]
   have : (90 : ℝ) * (Real.pi / 180) = Real.pi / 2 := by ring
   simp [this]
+
+/-! ### range of the cosine and of the angle; why `arctan(sin/cos)` is not the angle -/
+
+/-- **the exact cosine never leaves `[-1, 1]`** — a `nan` from `arccos` can only come from rounding -/
+theorem lawcos_mem_Icc (lon₁ lat₁ lon₂ lat₂ : ℝ) :
+    -1 ≤ lawcos realTrig lon₁ lat₁ lon₂ lat₂ ∧ lawcos realTrig lon₁ lat₁ lon₂ lat₂ ≤ 1 := by
+  rw [lawcos_eq_dot]
+  set a := xyz realTrig lon₁ lat₁
+  set b := xyz realTrig lon₂ lat₂
+  have h := lagrange a b
+  rw [xyz_unit, xyz_unit] at h
+  have h0 := dot3_self_nonneg (cross3 a b)
+  have hsq : (dot3 a b) ^ 2 ≤ 1 := by linarith
+  exact abs_le.mp (abs_le_one_iff_mul_self_le_one.mpr (by nlinarith [hsq]))
+
+/-- clamping the cosine to `[-1, 1]` (the proposed repair of the antipodal `nan`) changes no
+    exact value -/
+theorem arccos_clamp_lawcos (lon₁ lat₁ lon₂ lat₂ : ℝ) :
+    Real.arccos (min 1 (max (-1) (lawcos realTrig lon₁ lat₁ lon₂ lat₂)))
+      = Real.arccos (lawcos realTrig lon₁ lat₁ lon₂ lat₂) := by
+  obtain ⟨h1, h2⟩ := lawcos_mem_Icc lon₁ lat₁ lon₂ lat₂
+  rw [max_eq_right h1, min_eq_right h2]
+
+/-- **the oracle's angle lies in `[0, π]`** for every pair of vectors -/
+theorem oracleAngle_range (a b : V3 ℝ) :
+    0 ≤ oracleAngle Real.sqrt realAtan2 a b ∧ oracleAngle Real.sqrt realAtan2 a b ≤ Real.pi := by
+  unfold oracleAngle realAtan2
+  exact ⟨Complex.arg_nonneg_iff.mpr (Real.sqrt_nonneg _), Complex.arg_le_pi _⟩
+
+/-- **`arctan(sin/cos)` is not the angle for obtuse arcs**: whenever the two vectors are not
+    parallel and their dot product is negative (arc > 90°) the one-argument arctangent is
+    negative, the angle is not -/
+theorem arctan_form_wrong (a b : V3 ℝ) (hc : dot3 a b < 0)
+    (hs : dot3 (cross3 a b) (cross3 a b) ≠ 0) :
+    Real.arctan (Real.sqrt (dot3 (cross3 a b) (cross3 a b)) / dot3 a b) < 0 ∧
+    Real.arctan (Real.sqrt (dot3 (cross3 a b) (cross3 a b)) / dot3 a b)
+      ≠ oracleAngle Real.sqrt realAtan2 a b := by
+  have hpos : 0 < Real.sqrt (dot3 (cross3 a b) (cross3 a b)) :=
+    Real.sqrt_pos.mpr (lt_of_le_of_ne (dot3_self_nonneg _) (Ne.symm hs))
+  have hneg : Real.arctan (Real.sqrt (dot3 (cross3 a b) (cross3 a b)) / dot3 a b) < 0 :=
+    Real.arctan_lt_zero.mpr (div_neg_of_pos_of_neg hpos hc)
+  exact ⟨hneg, fun h => absurd (h ▸ (oracleAngle_range a b).1) (not_le.mpr hneg)⟩
+
+/-- non-vacuity: the x axis and a direction 135° away -/
+example : dot3 (⟨1, 0, 0⟩ : V3 ℝ) ⟨-1, 1, 0⟩ < 0 ∧
+    dot3 (cross3 (⟨1, 0, 0⟩ : V3 ℝ) ⟨-1, 1, 0⟩) (cross3 ⟨1, 0, 0⟩ ⟨-1, 1, 0⟩) ≠ 0 := by
+  simp [dot3, cross3]
+
+/-! ### conditioning of `arccos`: the tolerance of the float clause as a theorem -/
+
+theorem sin_ge_of_mem (a ξ : ℝ) (ha0 : 0 ≤ a) (ha : a ≤ Real.pi / 2) (h1 : a ≤ ξ)
+    (h2 : ξ ≤ Real.pi - a) : Real.sin a ≤ Real.sin ξ := by
+  by_cases h : ξ ≤ Real.pi / 2
+  · exact Real.sin_le_sin_of_le_of_le_pi_div_two (by linarith [Real.pi_pos]) h h1
+  · rw [← Real.sin_pi_sub ξ]
+    exact Real.sin_le_sin_of_le_of_le_pi_div_two (by linarith [Real.pi_pos]) (by linarith)
+      (by linarith)
+
+theorem angle_conditioning_lt (a θ θ' : ℝ) (ha0 : 0 < a) (ha : a ≤ Real.pi / 2)
+    (h1 : a ≤ θ) (hlt : θ < θ') (h2 : θ' ≤ Real.pi - a) :
+    |θ - θ'| ≤ |Real.cos θ - Real.cos θ'| / Real.sin a := by
+  obtain ⟨ξ, ⟨hξ1, hξ2⟩, hξ⟩ := exists_deriv_eq_slope Real.cos hlt
+    Real.continuous_cos.continuousOn Real.differentiable_cos.differentiableOn
+  rw [Real.deriv_cos] at hξ
+  have hsa : 0 < Real.sin a := Real.sin_pos_of_pos_of_lt_pi ha0 (by linarith [Real.pi_pos])
+  have hsξ : Real.sin a ≤ Real.sin ξ := sin_ge_of_mem a ξ ha0.le ha (by linarith) (by linarith)
+  have hd : 0 < θ' - θ := sub_pos.mpr hlt
+  have e : Real.cos θ - Real.cos θ' = Real.sin ξ * (θ' - θ) := by
+    field_simp at hξ
+    linarith
+  rw [le_div_iff₀ hsa, e, abs_mul, abs_of_pos (lt_of_lt_of_le hsa hsξ), abs_sub_comm,
+    abs_of_pos hd, mul_comm]
+  exact mul_le_mul_of_nonneg_right hsξ hd.le
+
+/-- **conditioning of the angle in terms of its cosine**: on `[a, π − a]` an error `δ` in the
+    cosine moves the angle by at most `δ / sin a` -/
+theorem angle_conditioning (a θ θ' : ℝ) (ha0 : 0 < a) (ha : a ≤ Real.pi / 2)
+    (hθ : a ≤ θ ∧ θ ≤ Real.pi - a) (hθ' : a ≤ θ' ∧ θ' ≤ Real.pi - a) :
+    |θ - θ'| ≤ |Real.cos θ - Real.cos θ'| / Real.sin a := by
+  rcases lt_trichotomy θ θ' with h | h | h
+  · exact angle_conditioning_lt a θ θ' ha0 ha hθ.1 h hθ'.2
+  · subst h
+    simp
+  · rw [abs_sub_comm θ θ', abs_sub_comm (Real.cos θ)]
+    exact angle_conditioning_lt a θ' θ ha0 ha hθ'.1 h hθ.2
+
+/-- **the tolerance of the float clause**: if the computed cosine `c'` is within `δ` of the true
+    cosine `c` and both lie in `[cos(π − a), cos a]` (arcs between `a` and `π − a`), then
+    `arccos c'` is within `δ / sin a` of the true arc.  With `δ = 64 eps` this is the first term of
+    the driver's `tolOf`; the second term and the floor `sin a ≥ √eps` cover the rounding of the
+    other operations and the two ends of the interval. -/
+theorem arccos_error_bound (a c c' δ : ℝ) (ha0 : 0 < a) (ha : a ≤ Real.pi / 2)
+    (hc : Real.cos (Real.pi - a) ≤ c ∧ c ≤ Real.cos a)
+    (hc' : Real.cos (Real.pi - a) ≤ c' ∧ c' ≤ Real.cos a) (hδ : |c - c'| ≤ δ) :
+    |Real.arccos c - Real.arccos c'| ≤ δ / Real.sin a := by
+  have hsa : 0 < Real.sin a := Real.sin_pos_of_pos_of_lt_pi ha0 (by linarith [Real.pi_pos])
+  have hpi : 0 ≤ Real.pi - a ∧ Real.pi - a ≤ Real.pi := ⟨by linarith [Real.pi_pos], by linarith⟩
+  have hlo : -1 ≤ Real.cos (Real.pi - a) := Real.neg_one_le_cos _
+  have hhi : Real.cos a ≤ 1 := Real.cos_le_one _
+  have key : ∀ x, Real.cos (Real.pi - a) ≤ x → x ≤ Real.cos a →
+      a ≤ Real.arccos x ∧ Real.arccos x ≤ Real.pi - a := by
+    intro x h1 h2
+    constructor
+    · have := Real.arccos_le_arccos h2
+      rwa [Real.arccos_cos ha0.le (by linarith [Real.pi_pos])] at this
+    · have := Real.arccos_le_arccos h1
+      rwa [Real.arccos_cos hpi.1 hpi.2] at this
+  have h := angle_conditioning a (Real.arccos c) (Real.arccos c') ha0 ha
+    (key c hc.1 hc.2) (key c' hc'.1 hc'.2)
+  rw [Real.cos_arccos (by linarith) (by linarith), Real.cos_arccos (by linarith) (by linarith)] at h
+  exact h.trans (div_le_div_of_nonneg_right hδ hsa.le)
+
+/-- non-vacuity: arcs between 60° and 120°, cosines 0 and 1/4 -/
+example : |Real.arccos 0 - Real.arccos (1 / 4)| ≤ (1 / 4) / Real.sin (Real.pi / 3) := by
+  have h3 : Real.cos (Real.pi - Real.pi / 3) = -(1 / 2) := by
+    rw [Real.cos_pi_sub, Real.cos_pi_div_three]
+  apply arccos_error_bound (Real.pi / 3) 0 (1 / 4) (1 / 4) (by positivity)
+    (by linarith [Real.pi_pos])
+  · rw [h3, Real.cos_pi_div_three]; constructor <;> norm_num
+  · rw [h3, Real.cos_pi_div_three]; constructor <;> norm_num
+  · norm_num [abs_of_nonneg]
 
 /-! ### distances depend only on directions (Cartesian positions of any radius) -/
 
